@@ -551,7 +551,18 @@ func (r *Reader) ReadInto(vals ...interface{}) error {
 func (r *Reader) ReadMessage(codec Codec) (messageInstance any, err error) {
 	var messageData []byte
 	var messageName string
-	if err = r.ReadInto(&messageData, &messageName); err != nil {
+	// 消息体不做拷贝，直接引用当前缓冲区的子切片：嵌套消息（SchedulerMessage、PipeResult…）每层各拷贝一次时，
+	// 总分配量与"嵌套深度 × 长度"成正比，几十 KB 的合法输入即可分配数十 MB
+	bodyLen, err := r.ReadUint32()
+	if err != nil {
+		return nil, err
+	}
+	if !r.check(int(bodyLen)) {
+		return nil, r.err
+	}
+	messageData = r.buf[r.pos : r.pos+int(bodyLen)]
+	r.pos += int(bodyLen)
+	if err = r.ReadInto(&messageName); err != nil {
 		return nil, err
 	}
 
